@@ -25,6 +25,7 @@ fn main() {
         std::process::exit(2);
     }
     run::install_panic_hook();
+    run::start_exec_monitor();
     let seed: u64 = arg(&args, "--seed").and_then(|s| s.parse().ok()).unwrap_or(1);
     let n: usize = arg(&args, "--n").and_then(|s| s.parse().ok()).unwrap_or(100);
     let depth: usize = arg(&args, "--depth").and_then(|s| s.parse().ok()).unwrap_or(0);
